@@ -359,26 +359,36 @@ SMALLEST = [
 def run(ctx):
     names = list(PRED)
     with reach(ctx, [getattr(reset_fs, n) for n in names] + [design_mod.draw_room_grid, design_mod.draw_area]):
-        hmax = ctx.pick(9, 16)
+        hmax = ctx.pick(11, 16)
         shapes = [(h, w) for h in range(1, hmax + 1) for w in range(1, hmax + 1)]
-        seeds = ctx.pick(2, 16)
+        seeds = ctx.pick(3, 16)
         idx = 0
+        mine = []
         for name in names:
             for p in param_grid(name, shapes, ctx.rng, ctx.thorough):
                 idx += 1
-                if not ctx.mine(idx):
+                # shard by shape, so that one process sees every parameter combination of the shapes it owns
+                if not ctx.mine(p['shape'][0] * 31 + p['shape'][1]):
                     continue
                 if name == 'memory_rooms' and not ctx.thorough and idx % 3:
                     continue
+                mine.append((idx, name, p))
+        # two passes in different shuffled orders: a result must not depend on which parameter combinations were used
+        # before in the same process (module-level caches keyed too coarsely, reused buffers)
+        for pass_no in range(2):
+            order = list(mine)
+            gen.rng_for('C13order', ctx.seed, ctx.shard, pass_no).shuffle(order)
+            for (idx, name, p) in order:
                 if ctx.out_of_time(0.7):
                     ctx.add('grid_cases_skipped_for_time')
                     break
-                first = run_seeded(ctx, name, p, ctx.seed * 7919 + idx)
-                if first != 'rejected':
+                first = run_seeded(ctx, name, p, ctx.seed * 7919 + idx + pass_no * 77)
+                if first != 'rejected' and pass_no == 0:
                     for s in range(1, seeds):
                         run_seeded(ctx, name, p, ctx.seed * 7919 + idx + s * 1000003)
                 if idx % 4999 == 0:
                     ctx.sample('grid_case', {'fn': name, 'params': jsonable(p), 'verdict': first})
+            ctx.hit('passes')
         for i, (name, p) in enumerate(SMALLEST):
             if ctx.mine(i):
                 n = run_all_outcomes(ctx, name, dict(p), ctx.pick(3000, 200000))
